@@ -20,6 +20,7 @@ let () =
   | _ :: "edges" :: _ -> L_eval.run_edges ()
   | _ :: "lex" :: _ -> L_lex.run ()
   | _ :: "diag" :: _ -> L_diag.run ()
+  | _ :: "handlers" :: _ -> L_handlers.run ()
   | _ ->
       prerr_endline "usage: oalmodel <layer>";
       exit 2
